@@ -1,6 +1,9 @@
 """Per-property configuration of ./check (which build configurations run, floors, layers)."""
 
 PROPS = {
+    "C11": dict(configs=["ring", "aws"], floor=500),
+    "C14": dict(configs=["ring", "aws"], floor=500),
+    "C19": dict(configs=["ring", "aws"], floor=500),
     "C12": dict(configs=["ring", "aws"], floor=500),
     "C03": dict(configs=["ring", "aws"], floor=500),
     "C17": dict(configs=["ring", "aws"], floor=1000),
